@@ -104,7 +104,7 @@ var (
 	c01BadNet  = []string{"", "udp", "TCP", "tcp4", "tcp6", "unixgram", "ip", "garbage", " tcp", "Unix"}
 	c01BadTCP  = []string{"", "127.0.0.1", "127.0.0.1:99999", "127.0.0.1:-1", "nosuchhost.invalid:80", "localhost:1234", "127.0.0.1:nosuchservice",
 		"[::1", "1.2.3.4.5:80", "/tmp/plugin123", "127.0.0.1:12 34", "::1:80", strings.Repeat("a", 300) + ":80"}
-	c01OddUnix  = []string{"", "relative/path", "@abstract", "/tmp/with space", strings.Repeat("/x", 200), "127.0.0.1:1234",
+	c01OddUnix = []string{"", "relative/path", "@abstract", "/tmp/with space", strings.Repeat("/x", 200), "127.0.0.1:1234",
 		"/tmp//plugin1", "/tmp/./plugin2", "/tmp/x/../plugin3", "/tmp/plugin4/", "./plugin5", "//tmp/plugin6"}
 	c01BadProto = []string{"", "GRPC", "netrpc ", "foo", "http", "grpc\x00"}
 	c01BadMux   = []string{"false", "0", "f", "F", "FALSE", "False", "", "yes", "no", "2", "truee", " true"}
